@@ -12,11 +12,12 @@ from skchange.costs.base import BaseCost
 class TableCost(BaseCost):
     """table[j][s][e] = cost of column j on [s, e)."""
 
-    def __init__(self, table=None, min_size_=1, param=None):
+    def __init__(self, table=None, min_size_=1, param=None, int_dtype=False):
         self.table = table
         self.min_size_ = min_size_
+        self.int_dtype = int_dtype
         super().__init__(param)
-        self._t = np.asarray(table, dtype=float)
+        self._t = np.asarray(table, dtype=np.int64 if int_dtype else float)   # int_dtype: evaluate returns an integer array
 
     @property
     def min_size(self):
